@@ -269,6 +269,15 @@ fn connack_cases(rep: &mut Rep, idx: &mut u64) {
             let reasons: Vec<u8> = if k < rc::CONNACK_REASONS.len() * 2 { vec![0, rc::CONNACK_REASONS[k % rc::CONNACK_REASONS.len()]] } else { vec![0, rc::CONNACK_REASONS[(k + oi) % rc::CONNACK_REASONS.len()]] };
             for reason in reasons {
                 let sp = reason == 0 && (k + oi) % 2 == 1;
+                // a refusing CONNACK may announce anything, including "Subscription Identifiers not available" (the documented
+                // assertion concerns successful connections only): every second refusal carries that property with value 0
+                let mut props = props.clone();
+                if reason >= 0x80 && (k + oi) % 2 == 0 {
+                    props.retain(|p| p.id != 41);
+                    let pos = (k + oi) % (props.len() + 1);
+                    props.insert(pos, Prop::byte(41, 0));
+                    rep.add("refusing_connacks_without_subscription_identifier_support", 1);
+                }
                 let id = format!("connack:{k}:{oi}:{reason:#x}");
                 *idx += 1;
                 if !rep.take(*idx, &id) {
